@@ -259,13 +259,15 @@ Fixpoint drain_msgq (fuel:nat) : M unit :=
 
 Definition qseq (q:qitem) : Z := match q with QEv _ _ z _ => z | QCompl _ _ _ => 0%Z end.
 Definition set_qseq (z:Z) (q:qitem) : qitem := match q with QEv e s _ m => QEv e s z m | other => other end.
-(* std::stable_sort with sort_greater: descending by sequence, equal elements keep their order *)
-Fixpoint insert_desc (x:qitem) (l:list qitem) : list qitem :=
+(* std::stable_sort with sort_greater: descending by the distance of the sequence number to the current sequence
+   (unsigned, modulo the counter width), equal elements keep their order *)
+Definition seq_dist (cur z:Z) : Z := Z.modulo (z - cur) (Z.pow 2 (Z.of_nat back_seq_bits)).
+Fixpoint insert_desc (cur:Z) (x:qitem) (l:list qitem) : list qitem :=
   match l with
   | [] => [x]
-  | y :: t => if Z.ltb (qseq y) (qseq x) then x :: y :: t else y :: insert_desc x t
+  | y :: t => if Z.ltb (seq_dist cur (qseq y)) (seq_dist cur (qseq x)) then x :: y :: t else y :: insert_desc cur x t
   end.
-Definition sort_desc (l:list qitem) : list qitem := fold_left (fun acc x => insert_desc x acc) l [].
+Definition sort_desc (cur:Z) (l:list qitem) : list qitem := fold_left (fun acc x => insert_desc cur x acc) l [].
 
 (* the while loop of do_handle_deferred; returns not_only_deferred *)
 Fixpoint deferred_loop (fuel:nat) : M bool :=
@@ -295,7 +297,7 @@ Fixpoint handle_deferred (fuel:nat) (new_seq:bool) : M unit :=
         stopped <- deferred_loop f ;;
         if stopped
         then
-          modify (fun rn => set_defq rn (map (set_qseq (wrap_back (curseq rn + 1))) (sort_desc (defq rn)))) ;;
+          modify (fun rn => set_defq rn (map (set_qseq (wrap_back (curseq rn + 1))) (sort_desc (curseq rn) (defq rn)))) ;;
           handle_deferred f true
         else ret tt
   end.
@@ -326,11 +328,11 @@ Definition pei_body (fuel:nat) (ev:evt) (src:nat) : M nat :=
     ret handled.
 
 (* history *)
-Definition history_entry (rn:rnode) (ety:nat) (wrapped:bool) : list nat :=
+Definition history_entry (rn:rnode) (ety:nat) : list nat :=
   match m_hist mc with
   | HNone => m_inits mc
   | HAlways => hist rn
-  | HShallow evs => if negb wrapped && memb ety evs then hist rn else m_inits mc
+  | HShallow evs => if memb ety evs then hist rn else m_inits mc
   end.
 Definition keeps_deferred (ety:nat) : bool :=
   match m_hist mc with HNone => false | HAlways => true | HShallow evs => memb ety evs end.
@@ -349,8 +351,7 @@ Definition internal_start (fuel:nat) (ev:evt) : M unit :=
 
 (* do_entry of this machine when it is a submachine, around the front-end's on_entry *)
 Definition do_entry_pre (ev:evt) (k:ekind) : M unit :=
-  let wrapped := match k with EkPlain => false | _ => true end in
-  modify (fun rn => set_act rn (history_entry rn (e_ty ev) wrapped)) ;;
+  modify (fun rn => set_act rn (history_entry rn (e_ty ev))) ;;
   modify (fun rn => set_processing rn true).
 Definition do_entry_post (fuel:nat) (ev:evt) (k:ekind) : M unit :=
   match k with
